@@ -207,3 +207,211 @@ def difference_witness(text1, text2):
     alphabet = alphabet_of(text1, text2)
     eq, o1, o2 = rx.compare(dfa(text1, alphabet), dfa(text2, alphabet))
     return eq, (show(o1) if o1 is not None else None), (show(o2) if o2 is not None else None)
+
+
+def _canon_step(x, c):
+    """canonical-prefix automaton: 0 = empty, 1 = inside a component, 2 = just after a separator, None = not canonical"""
+    if x is None:
+        return None
+    if c == "/":
+        return 2 if x in (0, 1) else None
+    return 1
+
+
+def component_range(d, rooted=None, nonempty=True):
+    """(min, max, example of min, example of max) of the number of components over the canonical paths the automaton
+    accepts; max is None when unbounded; None when no canonical path is accepted.  rooted: True = only paths that
+    begin with a separator, False = only relative paths, None = both; nonempty: the empty path is not counted."""
+    start = (d.start, 0)
+    # forward exploration of the product with the canonical-prefix automaton
+    edges = {}
+    seen = {start}
+    todo = [start]
+    while todo:
+        st = todo.pop()
+        q, x = st
+        for c in d.alphabet:
+            x2 = _canon_step(x, c)
+            if x2 is None:
+                continue
+            if x == 0 and ((c == "/" and rooted is False) or (c != "/" and rooted is True)):
+                continue
+            st2 = (d.trans[(q, c)], x2)
+            w = 1 if (x in (0, 2) and x2 == 1) else 0
+            edges.setdefault(st, []).append((st2, w, c))
+            if st2 not in seen:
+                seen.add(st2)
+                todo.append(st2)
+    final = {st for st in seen if st[0] in d.accept and st[1] in ((1,) if nonempty else (0, 1))}
+    if not final:
+        return None
+    # states from which a final state is reachable
+    rev = {}
+    for a, outs in edges.items():
+        for b, _w, _c in outs:
+            rev.setdefault(b, set()).add(a)
+    useful = set(final)
+    todo = list(final)
+    while todo:
+        b = todo.pop()
+        for a in rev.get(b, ()):
+            if a not in useful:
+                useful.add(a)
+                todo.append(a)
+    if start not in useful:
+        return None
+    # minimum: 0/1 breadth-first search
+    import collections
+    dist = {start: (0, ())}
+    dq = collections.deque([start])
+    while dq:
+        a = dq.popleft()
+        da, wa = dist[a]
+        for b, w, c in edges.get(a, ()):
+            if b not in useful:
+                continue
+            if b not in dist or dist[b][0] > da + w:
+                dist[b] = (da + w, wa + (c,))
+                (dq.append if w else dq.appendleft)(b)
+    lo, lo_word = min((dist[f] for f in final if f in dist), key=lambda t: (t[0], len(t[1])))
+    # maximum: unbounded iff a useful cycle contains a component-opening edge; otherwise longest path over the SCC DAG
+    index, low, onstack, stack, comp = {}, {}, set(), [], {}
+    counter = [0]
+    ncomp = [0]
+
+    def strong(v):
+        # iterative Tarjan
+        work = [(v, iter([b for b, _w, _c in edges.get(v, ()) if b in useful]))]
+        index[v] = low[v] = counter[0]
+        counter[0] += 1
+        stack.append(v)
+        onstack.add(v)
+        while work:
+            node, it = work[-1]
+            advanced = False
+            for b in it:
+                if b not in index:
+                    index[b] = low[b] = counter[0]
+                    counter[0] += 1
+                    stack.append(b)
+                    onstack.add(b)
+                    work.append((b, iter([x for x, _w, _c in edges.get(b, ()) if x in useful])))
+                    advanced = True
+                    break
+                elif b in onstack:
+                    low[node] = min(low[node], index[b])
+            if advanced:
+                continue
+            work.pop()
+            if work:
+                low[work[-1][0]] = min(low[work[-1][0]], low[node])
+            if low[node] == index[node]:
+                while True:
+                    x = stack.pop()
+                    onstack.discard(x)
+                    comp[x] = ncomp[0]
+                    if x == node:
+                        break
+                ncomp[0] += 1
+    for v in useful:
+        if v not in index:
+            strong(v)
+    for a in useful:
+        for b, w, _c in edges.get(a, ()):
+            if b in useful and w and comp[a] == comp[b]:
+                return lo, None, show(lo_word), None
+    # longest path: Tarjan numbers components in reverse topological order
+    best = {}
+    order = sorted(useful, key=lambda v: comp[v])
+    # process components in topological order (highest component number first)
+    by_comp = {}
+    for v in useful:
+        by_comp.setdefault(comp[v], []).append(v)
+    value = {}
+    for cnum in sorted(by_comp):           # sinks first
+        members = by_comp[cnum]
+        # within a component all internal edges have weight 0: the members share the best continuation
+        cont = None
+        for v in members:
+            if v in final:
+                cont = max(cont or (0, ()), (0, ()), key=lambda t: t[0])
+            for b, w, c in edges.get(v, ()):
+                if b in useful and comp[b] != cnum:
+                    cand = (value[b][0] + w, (c,) + value[b][1])
+                    if cont is None or cand[0] > cont[0]:
+                        cont = cand
+        for v in members:
+            value[v] = cont if cont is not None else (0, ())
+    hi = value[start][0]
+    return lo, hi, show(lo_word), None
+
+
+def all_start_with_separator(d):
+    """-> None if every accepted word begins with '/', else a shortest accepted word that does not"""
+    if d.start in d.accept:
+        return ""
+    for c in d.alphabet:
+        if c == "/":
+            continue
+        # is an accepting state reachable from trans(start, c)?
+        s0 = d.trans[(d.start, c)]
+        seen = {s0: (c,)}
+        todo = [s0]
+        while todo:
+            nxt = []
+            for s in todo:
+                if s in d.accept:
+                    return show(seen[s])
+                for c2 in d.alphabet:
+                    s2 = d.trans[(s, c2)]
+                    if s2 not in seen:
+                        seen[s2] = seen[s] + (c2,)
+                        nxt.append(s2)
+            todo = nxt
+    return None
+
+
+def canonical_difference(d1, d2, skip=()):
+    """-> None if both automata accept the same canonical paths (words in `skip` are not compared), else
+    (word, accepted by the first?, accepted by the second?) for a shortest canonical word on which they differ"""
+    assert d1.alphabet == d2.alphabet
+    skip = set(skip)
+    start = (d1.start, d2.start, 0)
+    seen = {start: ()}
+    todo = [start]
+    while todo:
+        nxt = []
+        for st in todo:
+            a, b, x = st
+            w = seen[st]
+            if x in (0, 1):
+                in1, in2 = a in d1.accept, b in d2.accept
+                if in1 != in2 and "".join(w) not in skip:
+                    return show(w), in1, in2
+            for c in d1.alphabet:
+                x2 = _canon_step(x, c)
+                if x2 is None:
+                    continue
+                st2 = (d1.trans[(a, c)], d2.trans[(b, c)], x2)
+                if st2 not in seen:
+                    seen[st2] = w + (c,)
+                    nxt.append(st2)
+        todo = nxt
+    return None
+
+
+def body_of(program):
+    """The expression between the anchors of a program text `(?s)^...$` (flags that precede the anchor are kept)."""
+    t = program
+    flags = ""
+    while t.startswith("(?") and not t.startswith("(?:"):
+        j = t.index(")")
+        flags += t[:j + 1]
+        t = t[j + 1:]
+    if not (t.startswith("^") and t.endswith("$")):
+        raise rx.RxError("program text %r is not anchored as expected" % program)
+    return flags, t[1:-1]
+
+
+def escape(text):
+    return "".join("\\" + c if c in "\\.+*?()|[]{}^$#&-~" else c for c in text)
